@@ -43,6 +43,13 @@ Definition lateral_body (k : nat) : list acc :=
 Definition outer_cache_body (misses : nat -> bool) (k : nat) : list acc :=
   mkAcc Rd (Var "outer.cache") [] :: (if misses k then [mkAcc Wr (Var "outer.cache") []] else []).
 
+(* since d44f076 every scope created for a goroutine has its own cache for the outer records:
+   goroutine i only touches cache i *)
+Definition outer_cache_workers (misses : nat -> bool) (len n : nat) : list (list acc) :=
+  map (fun i => flat_map (fun k => mkAcc Rd (Idx "outer.cache" i) [] ::
+                                   (if misses k then [mkAcc Wr (Idx "outer.cache" i) []] else []))
+                         (range len n i)) (seq 0 n).
+
 (* ---- load_view.go readRecordSet / loadViewFromJsonLinesFile ----------------------------------------
    thread 1 = consumer (go#0): for { row, ok := <-rowch; ...; if 0 < fileSize && 0 < pos && ... ;
                                       recordSet = append(recordSet, record) }; defer: err == nil?; panicCh <- true
@@ -56,19 +63,35 @@ Definition prepared_cap : nat := 300.     (* fileLoadingPreparedRecordSetCap *)
 Definition rd (x : string) : step := SAcc (mkAcc Rd (Var x) []).
 Definition wr (x : string) : step := SAcc (mkAcc Wr (Var x) []).
 
-Definition consumer_iter (with_pos : bool) (k : nat) : list step :=
-  SRecv "rowch" k :: (if with_pos then [rd "pos"] else []) ++ [rd "recordSet"; wr "recordSet"].
-Definition consumer (with_pos : bool) (m : nat) : list step :=
-  flat_map (consumer_iter with_pos) (seq 0 m) ++ [SRecvClosed "rowch"; rd "err"; SSend "panicCh" 0].
-Definition producer_iter (with_pos : bool) (k : nat) : list step :=
-  (if with_pos && (Nat.ltb k prepared_cap) then [rd "pos"; wr "pos"] else []) ++ [SSend "rowch" k].
-(* fails = Some k: reader.Read returns an error instead of row k (err = e; break) *)
-Definition producer (with_pos : bool) (m : nat) (fails : bool) : list step :=
-  flat_map (producer_iter with_pos) (seq 0 m) ++ (if fails then [wr "err"] else []) ++ [rd "err"; SClose "rowch"].
+(* when the consumer looks at pos: at every row (the code as it stands: `0 < pos` is tested before
+   `len(recordSet) == cap`), only when exactly cap rows have been received (hooks/
+   fix_loader_pos_read_after_handover.patch), or never (pos left out of the summary) *)
+Inductive pos_read := EveryRow | AtCap | Never.
+Definition consumer_iter (pr : pos_read) (pc k : nat) : list step :=
+  SRecv "rowch" k ::
+  (match pr with
+   | EveryRow => [rd "pos"]
+   | AtCap => if Nat.eqb k pc then [rd "pos"] else []
+   | Never => []
+   end) ++ [rd "recordSet"; wr "recordSet"].
+Definition consumer (pr : pos_read) (pc m : nat) : list step :=
+  flat_map (consumer_iter pr pc) (seq 0 m) ++ [SRecvClosed "rowch"; rd "err"; SSend "panicCh" 0].
+Definition producer_iter (pr : pos_read) (pc k : nat) : list step :=
+  (match pr with
+   | Never => []
+   | _ => if Nat.ltb k pc then [rd "pos"; wr "pos"] else []
+   end) ++ [SSend "rowch" k].
+(* fails: reader.Read returns an error after m rows (err = e; break) *)
+Definition producer (pr : pos_read) (pc m : nat) (fails : bool) : list step :=
+  flat_map (producer_iter pr pc) (seq 0 m) ++ (if fails then [wr "err"] else []) ++ [rd "err"; SClose "rowch"].
 Definition loader_pre : list acc := [mkAcc Wr (Var "err") []; mkAcc Wr (Var "recordSet") []; mkAcc Wr (Var "pos") []].
 Definition loader_post : list acc := [mkAcc Rd (Var "recordSet") []; mkAcc Rd (Var "err") []].
+Definition loader_exec_gen (pr : pos_read) (pc m : nat) (fails : bool) : exec :=
+  fjs_exec loader_pre loader_post [consumer pr pc m; producer pr pc m fails].
 Definition loader_exec (with_pos : bool) (m : nat) (fails : bool) : exec :=
-  fjs_exec loader_pre loader_post [consumer with_pos m; producer with_pos m fails].
+  loader_exec_gen (if with_pos then EveryRow else Never) prepared_cap m fails.
+(* a scaled-down instance for the examples: buffer and prepared capacity 2 instead of 300 *)
+Definition small_cap (c : string) : nat := if String.eqb c "rowch" then 2 else 1.
 
 (* ---- cli/app.go: the signal goroutine -------------------------------------------------------------
    thread 0 = commandAction: var signalReceived error; go func(){...}(); err = fn(...);
@@ -80,3 +103,8 @@ Definition signal_exec : exec :=
     [SRecv "ch" 0; wr "signalReceived"];
     [SSend "ch" 0] ].
 Definition signal_cap (c : string) : nat := 1.
+(* hooks/fix_signal_received_mutex.patch: both accesses under signalMutex *)
+Definition signal_exec_fixed : exec :=
+  [ [wr "signalReceived"; SGo 1; SAcc (mkAcc Rd (Var "signalReceived") ["signalMutex"])];
+    [SRecv "ch" 0; SAcc (mkAcc Wr (Var "signalReceived") ["signalMutex"])];
+    [SSend "ch" 0] ].
